@@ -9,7 +9,7 @@
    KernelConfig and address list.  The hosts of every world the harness
    scripts can reach are such kernels (c16_world_hosts_reachable). *)
 From TV.Lib Require Import Base.
-From TV.NetTcp Require Import Gen Model Facts C16_proofs.
+From TV.NetTcp Require Import Gen Model Facts C16_proofs Wrap WrapTcb.
 Open Scope N_scope.
 
 (* Queued (unsent + unacknowledged) bytes never exceed send_buf_cap. *)
@@ -106,6 +106,47 @@ Proof.
   repeat split; try reflexivity. left; reflexivity.
 Qed.
 
+(* ---- u32 sequence arithmetic (the side condition of every theorem above) ----
+   The theorems above are stated on unbounded sequence numbers.  The code
+   keeps u32 values and compares with wrapping_sub / wrapping_add / ==.  The
+   three theorems below close that gap for the code of handle_established
+   (tcp.rs:300-368), of segment_one's loop body (tcp.rs:1299-1320) and of
+   segment_all's filter (tcp.rs:1276-1277): transcribed with the code's own u32
+   operations and run on u32 representatives (`wrt`, `wrs`, `wrp` reduce every
+   sequence field mod 2^32), they compute the representative of what the model
+   computes and take every decision (accept the ACK, accept the data, accept
+   the FIN, emit, how many bytes, send an ACK) identically, provided the values
+   compared are less than 2^31 apart (`near`; for egress less than 2^32:
+   `near_snd`).  `wrap_side_condition_tight`: without that proviso they differ. *)
+Theorem tcb_on_seg_wrap : forall cap t s, near t s ->
+  tcb_on_seg_w cap (wrt t) (wrs s) = (wrt (fst (tcb_on_seg cap t s)), snd (tcb_on_seg cap t s)).
+Proof. exact tcb_on_seg_wrap_lemma. Qed.
+
+Theorem seg_step_wrap : forall mss cap local t, near_snd t ->
+  seg_step_w mss cap local (wrt t) =
+  option_map (fun tp => (wrt (fst tp), wrp (snd tp))) (seg_step mss cap local t).
+Proof. exact seg_step_wrap_lemma. Qed.
+
+Theorem transmittable_wrap : forall t, near_snd t -> transmittable_w (wrt t) = transmittable t.
+Proof. exact transmittable_wrap_lemma. Qed.
+
+Theorem wrap_tight :
+  let una := W + 100 in let nxt := W + 110 in let ack := 105 in
+  ((0 <? wsub (wr ack) (wr una)) && (wsub (wr ack) (wr una) <=? wsub (wr nxt) (wr una))) = true /\
+  ((una <? ack) && (ack <=? nxt)) = false.
+Proof. exact wrap_side_condition_tight. Qed.
+
+(* Non-vacuity across the wrap: snd_una just below 2^32, snd_nxt above it; the
+   segment acknowledges across the wrap and carries in-order data across it. *)
+Example c16_wrap_nonvacuous :
+  let t := mktcb Established (mkip false 1, 80) (W + 5) (W - 10) 1000 (W - 3) [1;2;3;4;5;6;7;8;9;10;11;12;13;14;15] []
+                 false false None false false 2 1 in
+  let s := mkseg 80 1234 (W - 3) (W + 2) false true false false true 500 [7; 8; 9; 10; 11] in
+  near t s /\
+  tcb_on_seg_w 100 (wrt t) (wrs s) =
+    (mktcb Established (mkip false 1, 80) 5 2 500 2 [13; 14; 15] [7; 8; 9; 10; 11] false false None false false 0 0, true).
+Proof. exact wrap_concrete. Qed.
+
 Check send_buf_le_cap : forall k fd s t,
   kreach k -> lookup k fd = Some s -> s_tcb s = Some t -> len (send_buf t) <= send_cap (cfg k).
 Check payload_le_mss : forall k p s,
@@ -122,3 +163,8 @@ Print Assumptions write_blocks_iff_full.
 Print Assumptions udp_oversize_rejected.
 Print Assumptions c16_world_hosts_reachable.
 Print Assumptions c16_nonvacuous.
+Print Assumptions tcb_on_seg_wrap.
+Print Assumptions seg_step_wrap.
+Print Assumptions transmittable_wrap.
+Print Assumptions wrap_tight.
+Print Assumptions c16_wrap_nonvacuous.
